@@ -160,7 +160,8 @@ def execute(scen, scratch):
                     zp = sim.path("sut.zip")
                     with zipfile.ZipFile(zp, "w") as z:
                         for i, p in enumerate(parts):
-                            z.writestr("m%d.nt" % i, gen.to_nt(p))
+                            # archive order is what counts; the names sort the other way round
+                            z.writestr("part%d.nt" % (len(parts) - i), gen.to_nt(p))
                     sut_kw = {"graph_file_input": zp, "compression_mode": "zip"}
             else:
                 base = sorted(range(len(triples)), key=lambda i: tuple(x.n3() for x in (gen.to_rdflib_term(triples[i][0]),
